@@ -1,9 +1,11 @@
 package checks
 
 import (
+	"bytes"
 	"encoding/binary"
 	"encoding/hex"
 	"fmt"
+	"io"
 	"runtime"
 	"time"
 
@@ -494,10 +496,11 @@ func c02Client(c *ev.Ctx) {
 		auto := fakesrv.Auto(0, 7)
 		armed := false
 		fs.Handler = func(s *fakesrv.Server, rq *fakesrv.Req) {
-			if !armed || rq.Err != nil || rq.Msg.Type != wire.Tgetattr {
+			if !armed || rq.Err != nil || rq.Msg.Type == wire.Tclunk || rq.Msg.Type == wire.Tversion {
 				auto(s, rq)
 				return
 			}
+			armed = false // one hostile reply per connection
 			// build a hostile reply for this tag
 			t, vals := fakesrv.Derived(rq.Msg, 1<<16)
 			body, _ := wire.EncodeBody(t, vals)
@@ -561,12 +564,76 @@ func c02Client(c *ev.Ctx) {
 		var mask p9.AttrMask
 		var attr p9.Attr
 		var gerr error
+		kind := "GDWRLS"[i%6]
+		var check func(m wire.Msg) bool // does the decoded frame carry exactly what the call returned?
 		done := make(chan struct{})
-		c.Begin(fmt.Sprintf("C02 client case %d", i))
-		go func() { q, mask, attr, gerr = root.GetAttr(p9.AttrMaskAll); close(done) }()
+		c.Begin(fmt.Sprintf("C02 client case %d kind %c", i, kind))
+		go func() {
+			defer close(done)
+			switch kind {
+			case 'G':
+				q, mask, attr, gerr = root.GetAttr(p9.AttrMaskAll)
+				check = func(m wire.Msg) bool {
+					return m.Type == wire.Rgetattr && len(m.F) == 20 && m.F[1].(wire.QID) == wire.QID{Type: uint8(q.Type), Version: q.Version, Path: q.Path} &&
+						m.F[2].(uint64) == uint64(attr.Mode) && m.F[7].(uint64) == attr.Size && m.F[19].(uint64) == attr.DataVersion && (m.F[0].(uint64)&1 != 0) == mask.Mode
+				}
+			case 'D':
+				var d p9.Dirents
+				d, gerr = root.Readdir(0, 3000)
+				check = func(m wire.Msg) bool {
+					if m.Type != wire.Rreaddir {
+						return false
+					}
+					ents, _ := wire.DecodeDirents(m.F[0].([]byte))
+					if len(ents) != len(d) {
+						return false
+					}
+					for k := range d {
+						if d[k].Name != ents[k].Name || d[k].Offset != ents[k].Offset || d[k].QID.Path != ents[k].QID.Path {
+							return false
+						}
+					}
+					return true
+				}
+			case 'W':
+				var qs []p9.QID
+				qs, _, gerr = root.Walk([]string{"a", "b", "c"})
+				check = func(m wire.Msg) bool {
+					if m.Type != wire.Rwalk || len(m.F[0].([]wire.QID)) != len(qs) {
+						return false
+					}
+					for k, x := range m.F[0].([]wire.QID) {
+						if x != wQID(qs[k]) {
+							return false
+						}
+					}
+					return true
+				}
+			case 'R':
+				buf := make([]byte, 300)
+				var n int
+				n, gerr = root.ReadAt(buf, 5)
+				if gerr == io.EOF {
+					gerr = nil
+				}
+				check = func(m wire.Msg) bool {
+					return m.Type == wire.Rread && bytes.Equal(m.F[0].([]byte), buf[:n])
+				}
+			case 'L':
+				var t string
+				t, gerr = root.Readlink()
+				check = func(m wire.Msg) bool { return m.Type == wire.Rreadlink && m.F[0].(string) == t }
+			case 'S':
+				var st p9.FSStat
+				st, gerr = root.StatFS()
+				check = func(m wire.Msg) bool {
+					return m.Type == wire.Rstatfs && m.F[0].(uint64) == uint64(st.Type) && m.F[7].(uint64) == st.FSID && m.F[8].(uint64) == uint64(st.NameLength)
+				}
+			}
+		}()
 		out, dump := quiesce.Await(done, wd)
-		c.Case(fmt.Sprintf("cli:%s:%v", class, gerr == nil), true)
-		det := map[string]any{"class": class, "reply": hexCut(reply)}
+		c.Case(fmt.Sprintf("cli:%c:%s:%v", kind, class, gerr == nil), true)
+		det := map[string]any{"class": class, "reply": hexCut(reply), "pending_call": string(kind)}
 		if out != quiesce.CondMet {
 			hang(c, out, dump, "C02:cli:pending-call-hangs-on-hostile-reply:"+class, det)
 			fs.Shutdown()
@@ -576,15 +643,16 @@ func c02Client(c *ev.Ctx) {
 			// success is only acceptable if the frame decodes (reference) to
 			// exactly the returned values
 			m, _, derr := wire.Decode(reply)
-			okv := derr == nil && m.Type == wire.Rgetattr && len(m.F) == 20
-			if okv {
-				okv = m.F[1].(wire.QID) == wire.QID{Type: uint8(q.Type), Version: q.Version, Path: q.Path} &&
-					m.F[2].(uint64) == uint64(attr.Mode) && m.F[7].(uint64) == attr.Size && m.F[19].(uint64) == attr.DataVersion &&
-					(m.F[0].(uint64)&1 != 0) == mask.Mode
+			okv := derr == nil && check != nil && check(m)
+			if kind == 'D' && !okv && len(reply) >= 11 {
+				// a directory reply is lenient by nature: whole entries that parse
+				// are delivered, a broken tail is dropped. Judge the payload alone.
+				if _, tt, _ := wire.Header(reply); tt == wire.Rreaddir {
+					okv = check(wire.Msg{Type: wire.Rreaddir, F: []any{reply[11:]}})
+				}
 			}
 			if !okv {
-				det["returned"] = fmt.Sprint(q, attr)
-				c.Violation("C02:cli:call-succeeds-with-values-not-in-the-frame:"+class, det)
+				c.Violation("C02:cli:call-succeeds-with-values-not-in-the-frame:"+class+":"+string(kind), det)
 			}
 		}
 		c.Count("client_hostile_replies", 1)
